@@ -227,6 +227,7 @@ func c06Roundtrip(c *vlib.Ctx) {
 				for _, it := range c06Harvest(b, t, true) {
 					c06Check(c, it, "big-stretch")
 					n++
+					c.Step()
 				}
 				c.Step()
 			}
@@ -322,6 +323,10 @@ func canDecode(t gopacket.LayerType) (ok bool) {
 var derivedName = regexp.MustCompile(`(?i)(len|length|size|count|num|checksum|crc|fcs|cksum|padding|pad|ihl|dataoffset|offset|reserved)`)
 
 // fieldsSurvive compares the exported leaves of the written layer and the one read back, except derived fields.
+// derivedMemo caches the verdict of the derived-name pattern per field name (layers with tens of thousands of list
+// elements ask the same few names over and over).
+var derivedMemo = map[string]bool{}
+
 func fieldsSurvive(x, l any) (string, string) {
 	la, lb := sig.ExportedNoBaseLines(x), sig.ExportedNoBaseLines(l)
 	mb := map[string]string{}
@@ -346,7 +351,12 @@ func fieldsSurvive(x, l any) (string, string) {
 				last = pp[k:]
 			}
 		}
-		if derivedName.MatchString(last) {
+		dv, seen := derivedMemo[last]
+		if !seen {
+			dv = derivedName.MatchString(last)
+			derivedMemo[last] = dv
+		}
+		if dv {
 			continue
 		}
 		if _, isDNS := x.(*layers.DNS); isDNS && (last == ".Data" || last == ".TXT") {
